@@ -10,10 +10,10 @@ claim("C01",
       "NodeInfo.IsTaskAllocatable [top]: result ==> best-effort or the request fits *Idle*, not Idle+Releasing; IsTaskAllocatableOnReleasingOrIdle; lessEqualTaskToNodeResources), "
       "the exact per-status effect of addTaskResources/removeTaskResources/AddTask/RemoveTask/UpdateTask on Idle/Used/Releasing (mirror images of each other), "
       "checkMaxPodsWithGpuGroupReservation (exact), and the statement/commit pieces in framework. Right level: the property is an invariant preserved by each decision; "
-      "each link (check, charge, undo) is a universally quantified function contract.",
+      "each link (check, charge, undo) is a universally quantified function contract. Session 3: the snapshot constructors (NewNodeInfo: Idle == Allocatable, nothing used; AddTasksToNode: exact per-status effect of one pod, only occupying pods recorded; getNodeToPodInfosMap), the max-pods predicate also under C01, the GPU folds GetDraGpusCount/GetGpusQuota/GetTotalGPURequest as verified finite sums, the Session dispatch wrappers (FittingNode: every registered predicate and capacity callback is consulted) verified instead of trusted.",
       BASE + "Not decided: that every path from an action to Cache.Bind goes through Statement (call-graph fact), storage capacity (isTaskStorageAllocatable trusted), "
       "NodeInv as a sum over pods (no sum theory in the spec language: effects are proved per operation, the sum identity is the usual induction and is not mechanised), "
-      "NewNodeInfo/AddTasksToNode (snapshot construction), multi-cycle histories beyond the per-step contracts.",
+      "addTasksToNodes/Snapshot as a whole (AddTask's precondition vecWF - node vectors as long as the shared layout - is stronger than what the snapshot establishes; replayed, the code is fine), multi-cycle histories beyond the per-step contracts.",
       "DESIGN.md 2/C01")
 
 claim("C02",
@@ -27,8 +27,8 @@ claim("C02",
 claim("C03",
       "Proof, for all inputs, of the counting functions that implement gang integrity: getNumTasksToAllocate (allocated < min ==> exactly min - allocated; else at most one), getNumAllocatableTasks, "
       "getMaxNumSubGroupsToAllocate, getTasksFromQueue (exact length), GetTasksToAllocate [elasticAtMostOne], getMaxTasksToEvict (exact; [keepsMin], [orAll]), getNumOfSubGroupsToEvict (exact), "
-      "GetTasksToEvict [shrinkAtMostOne][partialFlag], ShouldPipelineJob ([only][sure][never]), IsGangSatisfied/IsReadyForScheduling/IsElastic, PodSet counters, validVictimForMinAvailable, PodSetOrderFn.",
-      BASE + "Assumed: scheduler_util.PriorityQueue.Push/Pop (container/heap external: membership and multiplicity only, no order). Not decided: exact counts as cardinalities over maps (no count construct: counters are proved as per-step deltas), "
+      "GetTasksToEvict [shrinkAtMostOne][partialFlag], ShouldPipelineJob ([only][sure][never]), IsGangSatisfied/IsReadyForScheduling/IsElastic, PodSet counters, validVictimForMinAvailable, PodSetOrderFn. Session 3: PriorityQueue Push/Pop/Peek and JobsOrderByQueues PushJob/PopNextJob VERIFIED (were trusted) incl. ordering clauses; the four Execute loops and attempt* functions of allocate/reclaim/preempt/consolidation verified (two trust clauses each: [successIsCommittable], [outcomeRecorded]); allocateSubGroupSet/allocatePodSet hand SubsetNodesFn ALL pod sets of the sub-group set.",
+      BASE + "Assumed: container/heap library contracts (strict-weak-order comparator keeps the heap invariants), 7 trust clauses for the hereditary data invariant of the jobs-order node tree. Not decided: exact counts as cardinalities over maps (no count construct: counters are proved as per-step deltas), "
       "which pod set is popped first when only some have surplus (depends on the heap order / subgrouporder configuration), the commit protocol of allocate/solvers (attemptToAllocateJob, JobSolver.Solve) beyond the Statement contracts.",
       "DESIGN.md 2/C03")
 
@@ -42,7 +42,7 @@ claim("C04",
 
 claim("C05",
       "Proof, for all inputs, that the listed gates do not reject the cases the property promises to serve (converse directions of the C01/C06/C07 contracts): IsTaskAllocatable(+OnReleasingOrIdle) completeness side, "
-      "common.FeasibleNodesForJob (a node with idle or releasing GPU capacity is kept), Reclaimable.CanReclaimResources (iff), FitsReclaimStrategy [starvedReclaimerServed], buildFilterFuncForPreempt$1 [eligibleAccepted].",
+      "common.FeasibleNodesForJob (a node with idle or releasing GPU capacity is kept), Reclaimable.CanReclaimResources (iff), FitsReclaimStrategy [starvedReclaimerServed], buildFilterFuncForPreempt$1 [eligibleAccepted]. Session 3: preempt/reclaim/consolidation/allocate Execute loops under contract: a job is skipped without an attempt only because a job OF ITS OWN QUEUE with a not-larger footprint failed before in this action ([perQueueScope], scopeOK preconditions of IsEasierToSchedule/UpdateRepresentative); every popped job is attempted or skipped for that reason ([orderDrained]); the seeded action-wide table is caught.",
       BASE + "Explicitly NOT decided: that allocate/reclaim/preempt visit every job, node and victim set (whole-cycle progress of an action's Execute loop), IsEasierToSchedule/UpdateRepresentative (the scheduling-signature shortcut; "
       "the seeded change of DESIGN.md section 7 for C05 lives there and is missed), idle_gpus accumulated filter. Candidate finding (not mechanised): jobEasierToScheduleComparison skips jobs whose request is incomparable to the recorded failure.",
       "DESIGN.md 2/C05")
